@@ -152,6 +152,7 @@ def pArg : P Arg := do
   let tag ← tok
   match tag with
   | "s" => do let x ← int; pure (.scalar x)
+  | "z" => do let x ← int; pure (.zerod x)
   | "v" => do let xs ← list int; pure (.seq xs)
   | _ => P.fail
 
@@ -217,6 +218,24 @@ def handle (ts : List String) : String :=
   | "hist" :: rest =>
     orErr <| (run (do let q0 ← nat; let ops ← list pHistOp; pure (q0, ops)) rest).map
       fun (q0, ops) => fmtDescribed (describe (hpRun q0 ops))
+  | "rebuild" :: rest =>
+    -- the fresh build of what the history left: `Part(quarter_duration = first entry)`, the later quarter durations,
+    -- the elements kind by kind, the beat mode (Model/StepMapHist.lean `rebuildOps`; Props/C10Hist.lean)
+    orErr <| (run (do let q0 ← nat; let ops ← list pHistOp; pure (q0, ops)) rest).bind
+      fun (q0, ops) =>
+        let d := describe (hpRun q0 ops)
+        match d.part.qd with
+        | (_, q) :: _ => some (fmtDescribed (describe (hpRun q (rebuildOps d))))
+        | [] => none
+  | "rebuilddpb" :: rest =>
+    -- the hypothesis of `rebuild_same_maps` for the three measure maps, evaluated: the fresh build measures the same
+    -- divisions per beat (also when a redundant quarter-duration entry is not reproduced)
+    orErr <| (run (do let q0 ← nat; let ops ← list pHistOp; pure (q0, ops)) rest).bind
+      fun (q0, ops) =>
+        let d := describe (hpRun q0 ops)
+        match d.part.qd with
+        | (_, q) :: _ => some (fmtBool (divsPerBeat (describe (hpRun q (rebuildOps d))).part == divsPerBeat d.part))
+        | [] => none
   | "cols" :: entry :: rest =>
     orErr <| (run (do let ks ← bool; let ts ← bool; let mp ← bool; pure (⟨ks, ts, mp⟩ : NAFlags)) rest).bind
       fun fl =>
